@@ -460,8 +460,30 @@ impl<'t, 'a> FnGen<'t, 'a> {
             let d = self.define();
             s.push(d);
         }
+        // now and then 40-130 further globals of all three name kinds (a symbol table beyond any small inline size),
+        // written early, read back after everything else ran
+        let mut many: Vec<Name> = vec![];
+        if self.t.chance(1, 25) {
+            let n = 40 + self.t.pick(91);
+            for i in 0..n {
+                let w: String = format!("extra{}{}", (b'a' + (i / 26) as u8) as char, (b'a' + (i % 26) as u8) as char);
+                let name = match i % 3 {
+                    0 => Name::Simple(w),
+                    1 => Name::Common(["my", "the", "your"][i % 3].to_string(), w),
+                    _ => Name::Proper(vec!["Extra".to_string(), format!("{}{}", (b'A' + (i / 26) as u8) as char, (b'a' + (i % 26) as u8) as char)]),
+                };
+                s.push(put(num(1000.0 + i as f64), &name));
+                many.push(name);
+            }
+        }
         let main = self.main_stmts(2);
         s.extend(main);
+        if !many.is_empty() {
+            let k = self.t.pick(many.len());
+            for name in [&many[0], &many[k], &many[many.len() - 1], &many[many.len() / 2]] {
+                s.push(say(var(name)));
+            }
+        }
         for g in self.globals.clone() {
             s.push(say(var(&g)));
         }
